@@ -81,6 +81,9 @@ def run(ch: Checker) -> None:
                      'i.e. after the executor unregistered the work\'s descriptors', 3)
     ch.rule('C05.10', 'admission is not starved: every way through Threadless._run_once either established that no new work is available or calls receive_from_work_queue() -- '
                       'a connection that keeps its descriptors ready on every tick must not keep the work queue from being read', 1)
+    ch.rule('C05.11', 'the parse loop cannot spin: the flag that sends HttpParser._process_body into its Content-Length branch (_content_expected) is (re)computed from EVERY Content-Length header '
+                      'stored, so it always agrees with the size that branch reads back from the header map (a flag left over from an earlier, replaced header makes the branch consume 0 bytes and '
+                      'report more input, forever -- the worker then serves nobody)', 1)
     ch.rule('C05.7', 'an integer parsed from wire bytes and used as a slice bound in ChunkParser/HttpParser is range-checked (a comparison with 0 that raises or leaves) '
                      'between the conversion and the use', 1)
 
@@ -258,6 +261,9 @@ def run(ch: Checker) -> None:
                      'client does not read, a busy tunnel) newly accepted connections are never admitted and the shutdown signal is never seen', p.describe(18))
     ch.check(bad10 is None and n10 > 0, 'C05.10', ro, 'admission on every tick', 'work queue read, or known empty, on all %d path(s)' % n10, bad10[0] if bad10 else 'no path', witness=bad10[1] if bad10 else None)
 
+    # ---- C05.11 flag and stored header in step
+    content_length_flag_check(ch, 'C05.11')
+
     # ---- C05.9 (shared)
     ch.import_rules('C10', {'C10.2': 'C05.9'}, 'descriptors of a torn-down work that stay registered make the next connection with the same numbers unpollable')
 
@@ -417,3 +423,26 @@ def _guarded_positive_elsewhere(ci: ClassInfo, src: ast.AST) -> bool:
                 # and k == b'content-length'
                 return True
     return False
+
+
+def content_length_flag_check(ch: Checker, rule: str) -> None:
+    prog = ch.prog
+    ph = prog.own_method('HttpParser', '_process_header')
+    g = cfg_of(ph, prog, exc_edges=False)
+    n = 0
+    bad = None
+    for p in fpaths(g):
+        ch.paths += 1
+        if p.exit_kind != 'return':
+            continue
+        fd = allfacts(p)
+        is_cl = any(v is True and kk.replace(' ', '').endswith("==b'content-length'") for kk, v in fd.items())
+        if not is_cl:
+            continue
+        n += 1
+        stores = [st for i, st in p.stmts() for chn, kind, node in attr_effects(st) if chn == 'self._content_expected' and kind == 'store']
+        if not stores:
+            bad = ('a Content-Length header is stored on a path that leaves _content_expected as an earlier header set it: with `Content-Length: 5` followed by `Content-Length: 0` the body '
+                   'branch is entered with a size of 0, consumes nothing and asks to be called again -- HttpParser.parse() never returns', p.describe(16))
+    ch.check(bad is None and n > 0, rule, ph, '_content_expected follows every Content-Length', 'the flag is assigned on all %d path(s) that store a Content-Length header' % n,
+             bad[0] if bad else 'no path stores a Content-Length header', witness=bad[1] if bad else None)
